@@ -242,9 +242,10 @@ func (r *runner) run(n int, s schedule) {
 		}
 	}
 
-	step := r.stepTLC
-	if s.Origin == "tlc-unlocked" {
-		step = r.stepUn
+	// schedules of the lock-respecting model never block; elsewhere blocking is expected
+	step := r.stepUn
+	if s.Origin == "tlc-locked" {
+		step = r.stepTLC
 	}
 	hung := false
 	var steps []string
